@@ -88,4 +88,9 @@ CHECKS = {
    text="SYNC part of CoPdo: recognition iff identifier = stored CAN-ID in PRE-OPERATIONAL/OPERATIONAL, each SYNC advances synchronous PDOs once, producer countdown with period 1006h/1000 ticks gated by the NMT state, 1005h/1006h write rules (start, stop, re-time, identifier change refused while producing, unresolvable period refused with the old value kept, a later valid write accepted). "
         "Edges + probe (read back both objects, ticks, SYNC and near-miss, reconfigure and start the producer, ticks) and walks replayed with per-tick comparison of produced SYNC frames, SDO verdicts, the type-1 TPDO frames and synchronous RPDO effects.",
    note=MC_NOTE + " Periods above 6 553 500 us (16-bit argument of COTmrGetTicks) are outside the alphabet.", technique="TLA+/TLC model checking + edge-cover behaviours replayed against the C code", ref="DESIGN.md section 8, C16"),
+ "C20": dict(
+   text="In four component models (NMT/heartbeat/consumers/application timers, PDO/SYNC, SDO client, EMCY) the reset operator is written as the sequence of sub-operations of CONmtReset and TLC checks in every reachable state that its result equals FreshFrom(current dictionary values) with application values and application timers untouched. "
+        "Behaviours H ; reset communication | reset node ; probe, with H covering every edge of each bounded model plus walks, are replayed: after the reset the free timer slots, mode, heartbeat timing, consumer monitoring from the first heartbeat, SYNC production / consumption, silent PDOs until OPERATIONAL, an idle and usable SDO client and cleared errors are compared with the fresh-start prediction. SDO servers and LSS are covered by the reset probes of C05 / C18.",
+   note=MC_NOTE + " Composition is per component (assume/guarantee): cross-component interference through the reset is visible only via the shared timer pool occupancy, which every component probe observes.",
+   technique="TLA+/TLC invariant reset = fresh start + edge-cover x reset-probe behaviours replayed against the C code", ref="DESIGN.md section 8, C20"),
 }
